@@ -75,6 +75,27 @@ struct Collector {
     ids: Vec<Value>,
     addrs: Vec<Value>,
     spans: Vec<Value>,
+    consts: Vec<Value>,
+}
+
+fn const_json(node: &ConstantKind) -> Value {
+    match node {
+        ConstantKind::IntegerLiteral(i) => json!({"kind": "int", "value": i.value.value.value.to_string(),
+            "neg": i.value.is_neg, "type": i.data_type.as_ref().map(|t| format!("{:?}", t))}),
+        ConstantKind::RealLiteral(r) => json!({"kind": "real", "bits": r.value.to_bits().to_string(),
+            "type": r.data_type.as_ref().map(|t| format!("{:?}", t))}),
+        ConstantKind::Boolean(b) => json!({"kind": "bool", "value": format!("{:?}", b.value)}),
+        ConstantKind::CharacterString(c) => json!({"kind": "string",
+            "chars": c.value.iter().map(|ch| *ch as u32).collect::<Vec<u32>>()}),
+        ConstantKind::Duration(d) => json!({"kind": "duration", "seconds": d.interval.whole_seconds().to_string(),
+            "nanos": d.interval.subsec_nanoseconds()}),
+        ConstantKind::TimeOfDay(t) => { let (h, m, s, us) = t.hmsm(); json!({"kind": "tod", "hmsu": [h, m, s, us]}) }
+        ConstantKind::Date(d) => { let (y, m, dd) = d.ymd(); json!({"kind": "date", "ymd": [y, m, dd]}) }
+        ConstantKind::DateAndTime(d) => { let (y, m, dd) = d.ymd(); let (h, mi, s, us) = d.hmsm();
+            json!({"kind": "dt", "ymd": [y, m, dd], "hmsu": [h, mi, s, us]}) }
+        ConstantKind::BitStringLiteral(b) => json!({"kind": "bits", "value": b.value.value.to_string(),
+            "type": b.data_type.as_ref().map(|t| format!("{:?}", t))}),
+    }
 }
 
 impl Visitor<()> for Collector {
@@ -97,6 +118,11 @@ impl Visitor<()> for Collector {
         Ok(())
     }
 
+    fn visit_constant_kind(&mut self, node: &ConstantKind) -> Result<(), ()> {
+        self.consts.push(const_json(node));
+        node.recurse_visit(self)
+    }
+
     fn visit_address_assignment(&mut self, node: &AddressAssignment) -> Result<(), ()> {
         self.addrs.push(json!({
             "location": format!("{:?}", node.location),
@@ -113,9 +139,10 @@ fn collect(lib: &Library) -> Value {
         ids: vec![],
         addrs: vec![],
         spans: vec![],
+        consts: vec![],
     };
     let _ = c.walk(lib);
-    json!({"ids": c.ids, "addrs": c.addrs, "spans": c.spans})
+    json!({"ids": c.ids, "addrs": c.addrs, "spans": c.spans, "consts": c.consts})
 }
 
 fn op_tok(case: &Value) -> Value {
